@@ -39,6 +39,13 @@ def keys(rnd, tier):
                '<circle cxy="{{random() * 10}} 3" r="{{randint(1, 3)}}"/></svg>')
         out.append(("random", doc, {"seed": seed}))
         out.append(("random", '<svg><config seed="%d"/>%s</svg>' % (seed % 1000, '<rect wh="{{random()}}"/>' * 4), {}))
+    # several random attributes of ONE <var> (assigned together: the draws must still be ordered)
+    out.append(("random", '<svg><var p="{{random()}}" q="{{random()}}" r="{{randint(1, 100)}}" s="{{random()}}"/>'
+                          '<rect wh="2" data-v="$p $q $r $s"/><g t="{{random()}}" u="{{random()}}"><rect wh="1" data-v="$t $u"/></g></svg>', {"seed": 3}))
+    # local styles requested from inside the document: only the root id may vary
+    out.append(("local-random", '<svg><config use-local-styles="true"/><rect wh="{{1 + random()}}" text="{{randint(1, 6)}}" class="d-fill-red"/>'
+                                '<circle cxy="9 9" r="{{random()}}"/></svg>', {"seed": 5}))
+    out.append(("local-random", '<svg><rect wh="{{1 + random()}}" class="d-softshadow"/><config use-local-styles="true"/><rect xy="5 5" wh="{{random()}}"/></svg>', {}))
     for k in range(6 if tier == "quick" else 20):
         n = rnd.randint(3, 9)
         body = "".join(f'<rect id="e{i}" xy="#missing{i}|h" wh="{{{{1 +}}}}"/>' if i % 2 else f'<rect xy="#nowhere{i}@tl" wh="2"/>' for i in range(n))
